@@ -4,12 +4,17 @@ import functools
 from collections.abc import Iterable
 from typing import TYPE_CHECKING
 
+from dask.dataframe._pyarrow import (
+    is_object_string_dataframe,
+    is_object_string_index,
+    is_object_string_series,
+)
 from dask.dataframe.dispatch import make_meta
-from dask.dataframe.utils import check_meta
+from dask.dataframe.utils import check_meta, pyarrow_strings_enabled
 from dask.delayed import Delayed, delayed
 
 from dask_expr import new_collection
-from dask_expr._expr import PartitionsFiltered, _DelayedExpr
+from dask_expr._expr import ArrowStringConversion, PartitionsFiltered, _DelayedExpr
 from dask_expr._util import _tokenize_deterministic
 from dask_expr.io import BlockwiseIO
 
@@ -125,6 +130,14 @@ def from_delayed(
 
     dfs = [_DelayedExpr(df) for df in dfs]
 
-    return new_collection(
-        FromDelayed(make_meta(meta), divisions, verify_meta, None, prefix, *dfs)
-    )
+    result = FromDelayed(make_meta(meta), divisions, verify_meta, None, prefix, *dfs)
+    if pyarrow_strings_enabled() and (
+        is_object_string_dataframe(result._meta)
+        or is_object_string_series(result._meta)
+        or is_object_string_index(result._meta)
+    ):
+        # Like the other creation functions, honour ``dataframe.convert-string``;
+        # ``to_delayed`` and ``to_legacy_dataframe`` convert anyway, so without this
+        # the partitions they return would not match the meta of this collection
+        return new_collection(ArrowStringConversion(result))
+    return new_collection(result)
